@@ -5,6 +5,9 @@ import Mqtt5V.Model.Mutex
 import Mqtt5V.Model.SerialOrder
 import Mqtt5V.Model.Utf8
 import Driver.Codec
+import Driver.Dec
+import Driver.Connect
+import Mqtt5V.Model.Frame
 import Mqtt5V.Model.Sender
 import Mqtt5V.Model.Replies
 import Mqtt5V.Model.Verdict
@@ -80,6 +83,10 @@ def pureStep (ws : List String) : String :=
   | "dupenc" :: _ => Driver.Codec.step ws
   | "varlen" :: _ => Driver.Codec.step ws
   | "val" :: _ => Driver.Codec.step ws
+  | "dec" :: rest => Driver.Dec.step rest
+  | "rot" :: _ => Driver.Connect.step ws
+  | "hs" :: _ => Driver.Connect.step ws
+  | "frame" :: _ => Driver.Connect.step ws
   | ["ord", "lt", p1, s1, p2, s2] =>
     match p1.toNat?, s1.toNat?, p2.toNat?, s2.toNat? with
     | some p1, some s1, some p2, some s2 =>
@@ -112,6 +119,8 @@ structure DState where
   mtxSlots : List Nat := []
   snd : Model.Sender.S := {}
   rep : Model.Replies.R := {}
+  frmMax : Nat := 65536
+  frmBuf : Option Wire.Bs := some []
 
 def allocN : Nat → Model.PidAlloc.Sys → Nat → Model.PidAlloc.Sys × Nat
   | 0, s, last => (s, last)
@@ -203,8 +212,35 @@ def repStep (r : Model.Replies.R) (ws : List String) : Model.Replies.R × String
   | ["clearpubrels"] => go .clearPubrels
   | _ => (r, "bad-op")
 
+def frmStep (st : DState) (ws : List String) : DState × String :=
+  open Model.Frame Model.PropsText in
+  let showEv : Ev → String
+    | .reply c p b => s!"reply {c} {p} {hexNats b}"
+    | .msg cb b => s!"msg {cb} {hexNats b}"
+    | .err => "err malformed"
+  let fin (mx : Nat) (evs : List String) (buf : Option Wire.Bs) : DState × String :=
+    let evs := match buf with | some b => evs ++ [s!"rd {mx - b.length}"] | none => evs
+    ({ st with frmMax := mx, frmBuf := buf }, if evs.isEmpty then "-" else String.intercalate " | " evs)
+  match ws with
+  | ["new", m] =>
+    let mx := if m = "-" then some 65536 else m.toNat?
+    match mx with
+    | some mx => fin mx [] (some [])
+    | none => (st, "bad-op")
+  | ["rx", hx] =>
+    match natsOfHex hx, st.frmBuf with
+    | some d, some buf =>
+      if d.isEmpty || d.length > st.frmMax - buf.length then (st, "bad-op") else
+      let r := feed st.frmMax (some buf) d
+      fin st.frmMax (r.1.map showEv) r.2
+    | _, _ => (st, "bad-op")
+  | ["tryagain"] => if st.frmBuf.isNone then (st, "bad-op") else fin st.frmMax ["refresh", "resend"] (some [])
+  | ["err"] => if st.frmBuf.isNone then (st, "bad-op") else fin st.frmMax ["err aborted"] none
+  | _ => (st, "bad-op")
+
 def step (st : DState) (ws : List String) : DState × String :=
   match ws with
+  | "frm" :: rest => frmStep st rest
   | "rep" :: rest => let r := repStep st.rep rest; ({ st with rep := r.1 }, r.2)
   | "snd" :: rest => let r := sndStep st.snd rest; ({ st with snd := r.1 }, r.2)
   | "mtx" :: rest => mtxStep st rest
